@@ -5,6 +5,7 @@ import ast
 from ..engine import rule
 from ..flow import PRUNE, Violation, explore, path_ends, path_is, \
     prov_has, provenance, raising_node, store_value, strip_not, truth_test
+from ..locks import lock_delta
 from ..model import dotted, walk_local
 from ..twopc import DS, FS, MS, identity_guard
 
@@ -251,10 +252,8 @@ def r2(R):
 
         def edge(node, st, lab, tgt, F=F):
             held = st
-            if node.kind == 'acq' and node.info['lock'][-1] == '_lock':
-                return held + 1
-            if node.kind == 'rel' and node.info['lock'][-1] == '_lock':
-                return max(0, held - 1)
+            if node.kind in ('acq', 'rel'):
+                return max(0, held + lock_delta(F, node))
             for op in F.ops(node):
                 if op.kind == 'call' and op.path is not None:
                     if path_ends(op.path, ('_lock', 'acquire'),
